@@ -289,7 +289,7 @@ pub struct TierCfg {
 
 pub fn tier(name: &str) -> TierCfg {
     match name {
-        "thorough" => TierCfg { name: "thorough", families: 150_000, q_per_fam: 100, threaded_runs: 60_000 },
+        "thorough" => TierCfg { name: "thorough", families: 70_000, q_per_fam: 100, threaded_runs: 60_000 },
         _ => TierCfg { name: "quick", families: 5000, q_per_fam: 60, threaded_runs: 3_000 },
     }
 }
